@@ -81,8 +81,8 @@ def run(tier, seed):
     g = gen.Gen(seed * 7919 + 11)
     progs = []
     for i in range(n):
-        nonlin = g.rng.random() < 0.4
-        p = g.program({"requests": True, "nsteps": 2, "nonlinear": nonlin, "state_rates": nonlin and g.rng.random() < 0.5,
+        nonlin = g.rng.random() < 0.5
+        p = g.program({"requests": True, "nsteps": 2, "nonlinear": nonlin, "p_iadj": 0.7, "state_rates": nonlin and g.rng.random() < 0.5,
                        "nstrat": g.rng.choice([0, 1, 2, 2]), "h": g.rng.choice(["1/4", "1/2"])})
         solver = "euler" if p["nonlinear"] else g.rng.choice(["euler", "rk4"])
         # function outputs get a parameter of their own: it reaches the results through the derived-output graph only
